@@ -358,6 +358,14 @@ impl<'a> Interp<'a> {
             }
             if let Some(d) = bad {
                 let kind = self.infos[i].kind;
+                let poisoned = match &self.slots[i] {
+                    Slot::M(b, m) => wrong_bytes_are_poison(&b[..], &m.bytes),
+                    Slot::V(v, m) => wrong_bytes_are_poison(&v[..], &m.bytes),
+                    _ => false, // a Bytes over a freed block is reported by the range oracles
+                };
+                if poisoned {
+                    self.viol("C02", "read-of-freed-memory", format!("slot {} ({}) owns live storage whose contents were copied out of a freed block: {}", i, ["-", "Bytes", "BytesMut", "Vec"][kind as usize], d));
+                }
                 self.viol(
                     "C01",
                     "value-model",
@@ -685,6 +693,12 @@ impl<'a> Interp<'a> {
             }
         }
     }
+}
+
+/// every byte that differs from the model is the value the oracle allocator writes into a block when it is freed: the bytes were
+/// copied out of memory that had already been released (C02 "access memory after it was freed"), not merely mixed up
+fn wrong_bytes_are_poison(got: &[u8], want: &[u8]) -> bool {
+    got.len() == want.len() && got != want && got.iter().zip(want.iter()).all(|(g, w)| g == w || *g == oalloc::POISON)
 }
 
 fn diff_msg(got: &[u8], want: &[u8]) -> String {
